@@ -23,7 +23,10 @@ type sheetsXML struct {
 type sheetRefXML struct {
 	Name    string `xml:"name,attr"`
 	SheetID string `xml:"sheetId,attr"`
-	RID     string `xml:"id,attr"` // r:id attribute for relationship
+	// r:id attribute for relationship. The namespace is part of the name: an unqualified
+	// "id" would also match an id attribute of any other (extension) namespace.
+	RID       string `xml:"http://schemas.openxmlformats.org/officeDocument/2006/relationships id,attr"`
+	RIDStrict string `xml:"http://purl.oclc.org/ooxml/officeDocument/relationships id,attr"` // ISO/IEC 29500 Strict
 }
 
 // worksheetXML represents a xl/worksheets/sheet*.xml file structure.
